@@ -26,9 +26,10 @@ from .world import World, TOOL, SESSIONS
 GEN_FILES = ["GenNotes"]
 DRIVERS = ["notes"]
 THEOREMS = ["C05_batch_unique", "C05_batch_layout", "C05_lookup_complete", "C05_batch_preserves_others",
+            "C05_all_layouts", "C05_batch_unique_any_layout", "C05_lookup_complete_any_layout",
             "C05_fanout2_refuted", "C05_unique_keysb_spec", "C05_notes_path_components",
             "C05_attestation_wf", "C05_build_ranges_ok", "C05_to_authorship_log_spec", "C05_upsert_spec", "C05_replay_refuted", "C05_squash_note_ok", "C05_merge_skips_absent", "C05_squash_fallback_refuted",
-            "C05_remap_base", "C05_remap_marker_refuted", "C05_gen_constants",
+            "C05_remap_after_divider", "C05_remap_base", "C05_remap_marker_fixed", "C05_gen_constants",
             "C05_nonvacuous_tree", "C05_nonvacuous_builder", "C05_nonvacuous_note_ok"]
 CLAIM = {
     "text": "Partial proof. Theorems (Coq 8.16.1, closed): (1) on a notes tree of fan-out depth <= 1 the batch writer "
@@ -183,16 +184,10 @@ def structural_problems(n, self_sha, files_lc):
 
 
 def c17_class(p):
-    """listed known classes of the text codec that make a note with this path unreadable"""
+    """listed known classes of the text codec that make a note with this path unreadable
+    (C17-K1, K3, K5 were repaired in /repo and excuse nothing any more)"""
     if "\n" in p:
         return "C17-K4 path contains a newline"
-    if not ((" " in p) or ("\t" in p)):
-        if p == "---":
-            return "C17-K1 path equal to the divider"
-        if len(p) >= 2 and p[0] == '"' and p[-1] == '"':
-            return "C17-K3 unquoted path that itself starts and ends with a double quote"
-        if p and p[-1] in WS_OTHER:
-            return "C17-K5 unquoted path ending in non-ASCII-blank whitespace"
     return None
 
 
@@ -377,8 +372,6 @@ def classify(f, op, slow, ai_paths):
         c = c17_class(p)
         if c and f["kind"] in ("parse", "hash", "unreadable", "file_absent", "no_prompt", "dup_file", "base"):
             return c
-    if op in REPLAY_OPS and f["kind"] in ("parse", "base", "unreadable") and any(remap_class(p) for p in ai_paths):
-        return "C05-K3 base_commit_sha remap rewrites the first occurrence of the field literal, here inside a file name"
     if op in REPLAY_OPS and slow and f["kind"] in REPLAY_KINDS:
         return "C05-K2 note written by the rebase / cherry-pick content replay: " + \
                ("names a file absent from the commit" if f["kind"] == "file_absent" else "lists lines beyond the end of the file")
@@ -687,7 +680,7 @@ def natural_case(args):
 
 
 def remap_witness(base):
-    """C05-K3 on the real binary: a file whose name contains the field literal, fast-path rebase"""
+    """repaired C05-K3, must PASS: a file whose name contains the field literal, fast-path rebase; True = broken"""
     sim = Sim5(base, "k3")
     try:
         name = '"base_commit_sha":"x'
@@ -1319,16 +1312,14 @@ def run(ctx):
             distinct.add(("remap", note, tgt))
         why = remap_oracle(note, tgt, full)
         if why:
-            if note_known_remap(note):
-                n_known_remap += 1
-                known_seen.add("C05-K3 base_commit_sha remap rewrites the first occurrence of the field literal, here inside a file name")
-            else:
-                violations.append((f"remap_note_content_for_target_commit: {why}; note {note[:160]!r}",
-                                   {"kind": "remap", "note": note, "target": tgt, "result": full, "why": why}))
+            # (the class `field literal inside the attestation section` was repaired: it excuses nothing any more)
+            n_known_remap += 1 if note_known_remap(note) else 0
+            violations.append((f"remap_note_content_for_target_commit: {why}; note {note[:160]!r}",
+                               {"kind": "remap", "note": note, "target": tgt, "result": full, "why": why}))
         if model and try_part != mod.get(i):
             mism.append(f"try_remap {note[:80]!r}: impl {try_part[:80]} model {(mod.get(i) or '')[:80]}")
     cov["remap_note_kinds"] = kinds
-    cov["remap_failures_in_known_class"] = n_known_remap
+    cov["remap_failures_with_the_field_literal_in_a_file_name"] = n_known_remap
 
     # ---------------------------------------------------------------- notes tree on real repositories
     n6 = 96 if quick else 1200
@@ -1372,26 +1363,18 @@ def run(ctx):
         if x["write"] != "ok":
             violations.append((f"notes_add_batch failed on tree {tree}", {"kind": "tree", "tree": tree, "entries": es, "impl": x}))
         elif dup and unique_before:
-            if deep:
-                n_dup_known += 1
-                known_seen.add("C05-K1 notes tree with fan-out depth >= 2: a batch write leaves two tree entries for one object")
-            else:
-                violations.append((f"two tree entries for {dup} after notes_add_batch on {tree}", {"kind": "tree", "tree": tree, "entries": es, "impl": x}))
+            n_dup_known += 1 if deep else 0
+            violations.append((f"two tree entries for {dup} after notes_add_batch on {tree}", {"kind": "tree", "tree": tree, "entries": es, "impl": x}))
         # oracle: the batched lookup finds what git's reader finds
         for phase in ("before", "after"):
             lk, gl = x[phase]
             for q, a, g in zip(qs, lk, gl):
-                if len(q) != 40:
+                if len(q) != 40 or len(g) > 1:      # an object annotated twice is excluded by unique_keys
                     continue
                 if (a == "none") != (g == []) or (a != "none" and a not in g):
                     tr = tree if phase == "before" else x["tree"]
-                    if any(len(p) > 2 for p, _ in tr):
-                        known_seen.add("C05-K1 notes tree with fan-out depth >= 2: note_blob_oids_for_commits misses a note that git's reader finds")
-                    elif len(g) > 1:
-                        pass    # an object annotated twice inside depth <= 1 is excluded by unique_keys
-                    else:
-                        violations.append((f"lookup of {q[:8]} gives {a}, git's reader {g} ({phase}) on {tr}",
-                                           {"kind": "tree-lookup", "tree": tree, "entries": es, "impl": x}))
+                    violations.append((f"lookup of {q[:8]} gives {a}, git's reader {g} ({phase}) on {tr}",
+                                       {"kind": "tree-lookup", "tree": tree, "entries": es, "impl": x}))
         if model and cid in mres:
             m = {e[0]: e[1:] for e in C.sx_parse_many(mres[cid])}
             mtree = sorted(([C.uncps(c) for c in p], b) for p, b in m["tree"][0])
@@ -1413,7 +1396,7 @@ def run(ctx):
                 mism.append(f"theorem instance fails in the extracted model on {tree}")
     obligations.append(("monitor:git facts G1/G2 (reader finds notes at any depth, concatenates duplicates) on hand-made trees",
                         not git_fact_bad and model, "; ".join(git_fact_bad[:2])))
-    cov["tree_cases"] = {"total": len(tcases), "with_depth>=2": n_deep, "duplicates_in_known_class": n_dup_known}
+    cov["tree_cases"] = {"total": len(tcases), "with_depth>=2": n_deep, "duplicates_on_deep_trees": n_dup_known}
 
     obligations.append(("tie:correspondence Model/NotesTree.v + Model/NoteOk.v vs Rust (in-process and on real repositories)",
                         model and not mism, "; ".join(mism[:3]) if mism else ("" if model else "model did not build")))
@@ -1472,12 +1455,7 @@ def run(ctx):
         evaluations += 1
         matrix[f"depth{x['depth']}/{x['op']}"] = "ok" if not x["fail"] else x["fail"][0][:160]
         if x["fail"]:
-            if x["depth"] >= 2:
-                known_seen.add("C05-K1 notes tree with fan-out depth >= 2: " +
-                               ("a batch write leaves two tree entries for one object" if any("two tree entries" in f for f in x["fail"])
-                                else "note_blob_oids_for_commits misses a note that git's reader finds"))
-            else:
-                violations.append((f"fan-out depth {x['depth']}, {x['op']}: {x['fail'][0]}", {"kind": "fanout", "case": x}))
+            violations.append((f"fan-out depth {x['depth']}, {x['op']}: {x['fail'][0]}", {"kind": "fanout", "case": x}))
     for x in nat:
         evaluations += 1
         if "error" in x:
@@ -1486,15 +1464,17 @@ def run(ctx):
             matrix["natural-70000-notes/rebase_plain"] = "ok" if not x["fail"] else x["fail"][0][:160]
             cov["natural_fanout_depth_chosen_by_git"] = x["depth_seen"]
             if x["fail"]:
-                if x["depth_seen"] is not None and x["depth_seen"] >= 2:
-                    known_seen.add("C05-K1 notes tree with fan-out depth >= 2: note_blob_oids_for_commits misses a note that git's reader finds")
-                else:
-                    violations.append((f"large notes ref: {x['fail'][0]}", {"kind": "fanout-natural", "case": x}))
+                violations.append((f"notes ref with {x['n']} notes (git stores notes {x['depth_seen']} levels deep): {x['fail'][0]}",
+                                   {"kind": "fanout-natural", "case": x,
+                                    "history": "70 000 notes created with fast-import; feature branch with one AI commit; "
+                                               "unrelated commit on main; git rebase main"}))
     cov["fanout_matrix"] = matrix
 
     # ---------------------------------------------------------------- witnesses of the known classes
     if remap_witness(ctx.scratch):
-        known_seen.add("C05-K3 base_commit_sha remap rewrites the first occurrence of the field literal, here inside a file name")
+        violations.append(("regression of a repaired defect (C05-K3): a file named \"base_commit_sha\":\"x with an AI line, "
+                           "fast-path git rebase main -> the note of the rebased commit is unreadable",
+                           {"kind": "squash-deleted-witness", "label": "C05-K3 remap witness"}))
     pr = squash_deleted_witness(ctx.scratch)
     cov["squash_deleted_witness"] = pr or "ok"
     if pr:
